@@ -838,11 +838,23 @@ func runSXWithReplies(lab *netlab, oneCPU bool, stdin []byte, args []string) sxR
 		}
 		time.Sleep(time.Millisecond)
 	}
-	for {
+	// … and from then on to the most recent probe seen (every engine run gets answers to probes of its own)
+	seen := 0
+	for n := 0; ; n++ {
 		select {
 		case res := <-resc:
 			return res
 		default:
+		}
+		if n%20 == 0 {
+			frames, _ := lab.peek()
+			for i := len(frames) - 1; i >= seen && i >= 0; i-- {
+				if _, ok := frameView("pkt-tcp", frames[i]); ok && len(frames[i]) >= 48 && frames[i][47] == 0x02 {
+					first = frames[i]
+					break
+				}
+			}
+			seen = len(frames)
 		}
 		if first != nil {
 			lab.inject(replyTo("pkt-tcp", first))
